@@ -4,7 +4,12 @@
 P="$1"; M="$2"
 for k in 1 2; do
   [ -f "$M/m$k.diff" ] || continue
-  PKG=$(head -1 "$M/demo_${k}_test.go" | sed 's#^// *##; s# .*##; s#/$##')
+  PKG=$(head -1 "$M/demo_${k}_test.go" | python3 -c "
+import re,sys
+l=sys.stdin.readline().strip().lstrip('/').strip()
+c=[t.strip('\`\"\'(),:') for t in l.split()]
+c=[t for t in c if t=='.' or re.fullmatch(r'(cmd|pkg|internal)/[A-Za-z0-9_./-]+',t.rstrip('/'))]
+print((c[0].rstrip('/') if c else '.'))")
   echo "== $P $M m$k ($PKG)"
   /verif/lib/confirm_seed.sh "$M" "$k" "$PKG" 2>&1 | grep -e '--- pristine' -e '--- build' -e '--- existing' -e '--- patched' | cut -c1-140
 done
